@@ -10,6 +10,21 @@ CHECKS = {
  "C02": dict(technique="deterministic simulation: planted ground truth + independent exhaustive reference matcher, RNG scripted",
              text="Same simulated worlds with planted occurrences across faces/edges/corners; completeness demanded for copies certified well inside tolerance (atol/(2K)), duplicates forbidden, count equality asserted when an exhaustive independent enumeration finds no gray-zone group; repeated under every RNG script.",
              note="Trusted: the harness' reference matcher/classifier; 'well inside' is atol/(2K), so a tightening of the tolerance by less than ~4x is not detected.", ref="5/C02"),
+ "C03": dict(technique="deterministic simulation: paired runs (re-presentation x RNG script), real MOF files through the simulated file seam",
+             text="Each simulated run searches a base world and 2-5 re-presentations of it (shift+wrap, atom permutation, rigid motion of the pattern, other valid hint triple incl. index 0, other RNG script, a x b x c supercell built by Atoms.replicate) and compares the matched groups through the known renaming; groups must survive when their residual is certified small for the other side's hints; supercell counts must be exactly a*b*c per certified unit-cell group. The repository's real MOF files (read through simulated file objects with scripted chunking) are part of the workload.",
+             note="Trusted: harness arithmetic (Kabsch residuals, folding supercell atoms by position). Groups without certified margin are not judged.", ref="5/C03"),
+ "C04": dict(technique="deterministic simulation: RNG-selected subset observed at the random seam, inner search tapped; atom-accounting reference",
+             text="Replace runs on generated worlds with full bystander metadata; the random seam decides tie-breaks and WHICH matches are sampled (first-k/last-k/alternate/MT), the inner search is tapped, and the result is accounted atom by atom (bystanders by exact position with label/mass/charge/group, retained atoms, inserted element counts, placement of inserted atoms, nearest-integer rounding of f*M, reported count, inputs unmodified).",
+             note="Trusted: harness accounting; overlapping selections are left to C07; order of atoms in the result is not judged.", ref="5/C04"),
+ "C05": dict(technique="deterministic simulation: scripted tie-break/axis decisions; placement oracle modulo lattice; joint-motion paired run",
+             text="Replace runs with emphasis on triclinic cells of both tilt signs, copies through faces/edges/corners, symmetric and collinear search patterns; for every replaced match a proper rigid motion must carry search+replacement coordinates onto matched+inserted atoms modulo the lattice within a tolerance-proportional bound; inserted atoms must lie inside the cell; a second run with both patterns moved jointly must give the same multiset modulo lattice.",
+             note="Bound 3*K*eps*sqrt(n)+1e-6*(1+reach) (K a-priori amplification, eps planted noise); joint-motion equality only when the frame is determined by the search pattern and no tie-break had >1 candidate.", ref="5/C05"),
+ "C07": dict(technique="deterministic simulation: glued overlapping occurrences; expected raise/no-raise computed from tapped matches and the seam-observed selection",
+             text="Worlds built by gluing pattern copies at shared atoms (chains, stars) so occurrences overlap in every combination; which physical atom is retained depends on the scripted tie-break, which matches are selected on the scripted sample; the oracle computes per-match deletion sets from the observed decisions and demands the dedicated error exactly when an atom would be removed twice (never with the ignore flag or an empty replacement), and accounts survivors otherwise.",
+             note="Error recognised by class name AtomsShouldNotBeDeletedTwice.", ref="5/C07"),
+ "C08": dict(technique="deterministic simulation: two-step replacement histories with exact before/after oracle; real MOF files through the simulated file seam",
+             text="Histories of two consecutive operations under a scripted random seam: identity replacement (term-free copy) on structures that carry their own typed terms and on the repository's real MOF files (atoms, charges, groups and term tuple sets must be unchanged), A->B->A site substitution with absent elements (multiset of element/position mod lattice restored), replace-all-then-search-again (no occurrence on original atoms remains).",
+             note="A->B->A asserted for non-overlapping occurrences certified within atol/(2K^2); tolerance 1e-9 for single atoms, placement bound otherwise.", ref="5/C08"),
 }
 
 NOT_APPLICABLE = [
